@@ -6,7 +6,7 @@
    (laplace_dl_is_normal_derivative / laplace_adl_is_normal_derivative, Kernels/LaplaceDerivs.v) are added by the
    lead. *)
 From Coq Require Import List Arith Permutation.
-From BV Require Import AssemblyB.Defs AssemblyB.Model AssemblyB.PotModel AssemblyB.TwoGrids.
+From BV Require Import AssemblyB.Defs AssemblyB.Model AssemblyB.PotModel AssemblyB.TwoGrids AssemblyB.PropLemmas.
 
 (* (T c)[nshape*e+i] = mult[e,i] * c[l2g[e,i]] on the support, 0 elsewhere, T = map_to_full_grid (ordinary spaces) *)
 Theorem C02_coefficients_mapped :
@@ -14,11 +14,7 @@ Theorem C02_coefficients_mapped :
   NoDup supp -> i < s_nshape s ->
   (In e supp -> full_coeffs RO s supp c (s_nshape s * e + i) = omul RO (s_mult s e i) (c (s_l2g s e i))) /\
   (~ In e supp -> full_coeffs RO s supp c (s_nshape s * e + i) = o0 RO).
-Proof.
-  intros A RO Hring s supp c e i Hnd Hi. split; intros H.
-  - exact (full_coeffs_local s supp c e i Hnd H Hi).
-  - exact (full_coeffs_outside s supp c e i H Hi).
-Qed.
+Proof. exact @C02_coefficients_mapped_l. Qed.
 Print Assumptions C02_coefficients_mapped.
 
 Theorem C02_potential_is_kernel_sum :
@@ -57,12 +53,7 @@ Theorem C02_potential_linear_and_order_independent :
   scalar_potential RO g s quad kern supp (fun n => oadd RO (omul RO a (x1 n)) (omul RO b (x2 n))) pt =
   oadd RO (omul RO a (scalar_potential RO g s quad kern supp' x1 pt))
           (omul RO b (scalar_potential RO g s quad kern supp' x2 pt)).
-Proof.
-  intros A RO Hring g s quad kern supp supp' a b x1 x2 pt Hp.
-  rewrite (potential_linear g s quad kern supp a b x1 x2 pt).
-  rewrite (potential_perm g s quad kern supp supp' x1 pt Hp), (potential_perm g s quad kern supp supp' x2 pt Hp).
-  reflexivity.
-Qed.
+Proof. exact @C02_potential_linear_and_order_independent_l. Qed.
 Print Assumptions C02_potential_linear_and_order_independent.
 
 (* the conjunction proved for C02; ANALYTIC GAP: that SLP[du/dn] - DLP[u] reproduces u inside and 0 outside
@@ -81,11 +72,7 @@ Theorem C02_partial :
       scalar_potential RO g s quad kern supp x pt =
       oadd RO (scalar_potential RO g s quad kern (filter inseg supp) x pt)
               (scalar_potential RO g s quad kern (filter (fun e => negb (inseg e)) supp) x pt)).
-Proof.
-  intros A RO Hring g s quad kern supp c pt Hnd. split.
-  - exact (potential_is_kernel_sum g s quad kern supp c pt Hnd).
-  - intros inseg x. exact (potential_additive_partition g s quad kern supp inseg x pt).
-Qed.
+Proof. exact @C02_partial_l. Qed.
 Print Assumptions C02_partial.
 
 (* ---- sign, normalisation and orientation of the two potentials relative to each other: the double-layer potential
